@@ -232,6 +232,48 @@ def main():
             except Exception as ex:  # noqa: BLE001
                 res.fail(f"local solver comparison raises behavior={name}", f"{type(ex).__name__}: {str(ex)[:120]}", dict(behavior=name))
 
+    # ---------------- both local solvers agree, rate laws included (exponents from 1 to 10, two step sizes) ----------------
+    for law_, args_ in (("Norton", (2.0, 1.0, 1.0)), ("Norton", (2.0, 3.0, 1.0)), ("Norton", (2.0, 5.0, 1.0)), ("Norton", (2.0, 10.0, 1.0)),
+                        ("Perzyna", (0.5, 2.0, 1.0)), ("Perzyna", (0.5, 5.0, 1.0)), ("Perzyna", (0.5, 10.0, 1.0))):
+        for dt_ in (0.1, 1.0):
+            identr = dict(behavior=f"VM+linear+{law_}{args_}", dt=dt_)
+            res.case(("solvers-rate", law_, args_, dt_))
+            try:
+                eps_ = rand_path(rng, 3, 2, 0.012)[3]
+                outs_ = {}
+                for solver_ in ("auto", "newton"):
+                    b_ = Behavior(3, Models.Elastic.Isotropic(3, E=E, v=v), yieldSurface=Yield.VonMises(sy), hardening=IsotropicHardening.Linear(20.0),
+                                  rate=getattr(ViscoPlastic, law_)(*args_), solver=solver_)
+                    sg_, _, z_, ok_ = b_.Integrate(fe(eps_), None, dt_)
+                    outs_[solver_] = (np.asarray(sg_)[0, 0], bool(np.asarray(ok_).all()))
+                if outs_["auto"][1] and outs_["newton"][1]:
+                    gap_ = np.abs(outs_["auto"][0] - outs_["newton"][0]).max()
+                    if gap_ > 1e-7 * (1 + np.abs(outs_["newton"][0]).max()):
+                        res.fail(f"local solvers disagree rate={law_} exponent={args_[1]}",
+                                 f"both local solvers report convergence but their stresses differ by {gap_:.2e} (default solver vs solver='newton', dt = {dt_})", dict(identr, strain=eps_.tolist()))
+            except Exception as ex:  # noqa: BLE001
+                res.fail(f"local solver comparison raises rate={law_}", f"{type(ex).__name__}: {str(ex)[:120]}", identr)
+
+    # ---------------- a simulation with a rate-dependent material: every advertised result can be read after a saved step ----------------
+    for ps_ in (False, True):
+        identp = dict(sim="InElastic", behavior="VM+linear+Norton", planeStress=ps_, dt=0.1)
+        res.case(("rate-results", ps_))
+        try:
+            meshr_ = M.mesh_2d("QUAD4", a=2.0, b=1.0, h=0.5)
+            br_ = Behavior(2, Models.Elastic.Isotropic(3, E=E, v=v), yieldSurface=Yield.VonMises(sy), hardening=IsotropicHardening.Linear(20.0),
+                           rate=ViscoPlastic.Norton(2.0, 3.0, 1.0), planeStress=ps_, thickness=1.0)
+            sr_ = Simulations.InElastic(meshr_, br_)
+            sr_.dt = 0.1
+            sr_.add_dirichlet(meshr_.Nodes_Conditions(lambda x, y, z: x == 0), [0.0, 0.0], ["x", "y"])
+            sr_.add_dirichlet(meshr_.Nodes_Conditions(lambda x, y, z: x == 2.0), [0.02], ["x"])
+            sr_.Solve()
+            sr_.Save_Iter()
+            S_ = np.asarray(sr_.Result("Stress", nodeValues=False))
+            if not np.all(np.isfinite(S_)):
+                res.fail(f"stress of a rate-dependent material not finite planeStress={ps_}", "Result('Stress') contains NaN / inf after a saved step", identp)
+        except Exception as ex:  # noqa: BLE001
+            res.fail(f"results of a rate-dependent material raise planeStress={ps_}", f"after Solve and Save_Iter, Result('Stress') raised {type(ex).__name__}: {str(ex)[:140]}", identp)
+
     # ---------------- no internal variable = linear elasticity ----------------
     for dim, ps in ((3, False), (2, False), (2, True)):
         el = Models.Elastic.Isotropic(3, E=E, v=v)
